@@ -222,7 +222,8 @@ def record(args):
                 table = [[s, e, pk, int(round(2 * scv))] for (s, e, pk, scv) in rows]
                 thr = thr_of(det.threshold_)
                 if abs(det.threshold_ - h) > 1e-9:
-                    out.append({"id": rid, "error": f"threshold_ {det.threshold_} != {h}", "n": n, "m": m, "L": L, "g": g})
+                    out.append({"id": rid, "error": f"threshold_ {det.threshold_} != {h}", "n": n, "m": m, "L": L, "g": g,
+                                "clause": "threshold_is_not_scale_times_default", "mode": mode, "score": "table"})
                     continue
                 unit = 0.5
             else:
@@ -255,7 +256,7 @@ def record(args):
         except RuntimeError:
             continue
         except NonTermination as e:
-            out.append({"id": rid, "error": "does not terminate: " + str(e), "n": n, "m": m, "L": L, "g": g,
+            out.append({"id": rid, "error": "does not terminate: " + str(e), "clause": "does_not_terminate", "n": n, "m": m, "L": L, "g": g,
                         "score": "table" if r1 else "builtin", "mode": mode})
             diverged += 1
             if diverged >= 3:
@@ -307,8 +308,8 @@ def run_check(chk, mode, tier, wd, detector):
         traces = [t for part in ex.map(record, [(mode, chk.seed + k, count) for k in range(16)]) for t in part]
     for t in [t for t in traces if "error" in t]:
         chk.case(t)
-        chk.violation({"stage": "C", "trace": t}, "raises",
-                      {"detector": detector, "clause": "raises", "n": t["n"], "m": t["m"], "L": t["L"], "g": t["g"]})
+        chk.violation({"stage": "C", "trace": t}, t.get("clause", "raises"),
+                      {"detector": detector, "clause": t.get("clause", "raises"), "n": t["n"], "m": t["m"], "L": t["L"], "g": t["g"]})
     traces = [t for t in traces if "error" not in t]
     slim = [{k: v for k, v in t.items() if k not in ("X", "score", "unit", "p", "g")} for t in traces]
     verdicts = stages.validate_traces(chk, "Trace_Binseg", slim, wd=wd, label="C:binseg", batch=150)
